@@ -5,7 +5,7 @@
  * parsec_dtd_data_flush.c (+ insert_function_internal.h inlines, list_item.h).
  *
  * Everything around them is a harness stub (listed in spec.py):
- *   - task mempools: static typed task objects VT[k] handed out by slot,
+ *   - task mempools: static typed task objects VT(k) handed out by slot,
  *     "free" only counts (a freed task is never reused inside one query);
  *   - scheduler: __parsec_schedule / __parsec_schedule_vp record "made ready"
  *     per task (ghost g_sched[k]) and detach the items;
@@ -35,7 +35,7 @@
 #define NF 3            /* flows per task object */
 #endif
 #ifndef NTASK
-#define NTASK 5         /* static task objects */
+#define NTASK 5         /* static task objects used (<= 6) */
 #endif
 #ifndef NTILE
 #define NTILE 2
@@ -63,12 +63,22 @@ typedef struct {
     uint32_t                sent[NF];  /* rank_sent_to storage (1 word per flow: nb_nodes = 1) */
 } vtask_t;
 
-static vtask_t                 VT[NTASK];
-static parsec_dtd_task_class_t TC[NTASK];     /* one class object per task: nb_flows may differ */
+/* one separate static object per task / class / tile / copy (an array of these big structs makes every
+ * write through a computed pointer rewrite the whole array in CBMC) */
+static vtask_t                 VT_0, VT_1, VT_2, VT_3, VT_4, VT_5;
+static vtask_t *const          VTP[6] = { &VT_0, &VT_1, &VT_2, &VT_3, &VT_4, &VT_5 };
+#define VT(k) (*VTP[k])
+static parsec_dtd_task_class_t TC_0, TC_1, TC_2, TC_3, TC_4, TC_5;     /* one class object per task: nb_flows may differ */
+static parsec_dtd_task_class_t *const TCP[6] = { &TC_0, &TC_1, &TC_2, &TC_3, &TC_4, &TC_5 };
+#define TC(k) (*TCP[k])
 static parsec_flow_t           FL[NF];
 static parsec_thread_mempool_t TMP[1];
-static parsec_dtd_tile_t       TL[NTILE];
-static parsec_data_copy_t      CP[NTILE];
+static parsec_dtd_tile_t       TL_0, TL_1;
+static parsec_dtd_tile_t *const TLP[2] = { &TL_0, &TL_1 };
+#define TL(i) (*TLP[i])
+static parsec_data_copy_t      CP_0, CP_1;
+static parsec_data_copy_t *const CPP[2] = { &CP_0, &CP_1 };
+#define CP(i) (*CPP[i])
 static int                     VAL[NTILE];    /* the "matrix tile" contents: a version number */
 static parsec_data_collection_t DC;
 static parsec_hash_table_t     TILE_HT;
@@ -92,12 +102,12 @@ static int g_fake_writer;      /* the variadic fake-writer path was requested */
 
 static int vp_idx(const void *p)
 {
-    for(int i = 0; i < NTASK; i++) if(p == (const void *)&VT[i].t) return i;
+    for(int i = 0; i < NTASK; i++) if(p == (const void *)&VT(i).t) return i;
     return -1;
 }
 static int vp_tile_idx(const void *p)
 {
-    for(int i = 0; i < NTILE; i++) if(p == (const void *)&TL[i]) return i;
+    for(int i = 0; i < NTILE; i++) if(p == (const void *)&TL(i)) return i;
     return -1;
 }
 
@@ -126,9 +136,9 @@ static void *vp_tm_alloc(parsec_thread_mempool_t *tm)
     int k = vp_slot; vp_slot = -1;
     VASSUME(k >= 0 && k < NTASK);
     for(int i = 0; i < NTASK; i++) if(i == k) {
-        VT[i].t.super.super.super.obj_reference_count = 1;      /* as left by the mempool */
-        VT[i].t.mempool_owner = &TMP[0];
-        return &VT[i].t;
+        VT(i).t.super.super.super.obj_reference_count = 1;      /* as left by the mempool */
+        VT(i).t.mempool_owner = &TMP[0];
+        return &VT(i).t;
     }
     return NULL;
 }
@@ -171,7 +181,7 @@ void *parsec_hash_table_nolock_find(parsec_hash_table_t *ht, parsec_key_t key) {
 void *parsec_hash_table_remove(parsec_hash_table_t *ht, parsec_key_t key)
 {
     g_ht_removed++;
-    for(int i = 0; i < NTILE; i++) if(ht == &TILE_HT && key == (parsec_key_t)TL[i].key) { g_ht_removed_ok++; return &TL[i]; }
+    for(int i = 0; i < NTILE; i++) if(ht == &TILE_HT && key == (parsec_key_t)TL(i).key) { g_ht_removed_ok++; return &TL(i); }
     return NULL;
 }
 int parsec_data_release_self_contained_data(parsec_data_t *d) { (void)d; return 0; }
@@ -205,35 +215,35 @@ static void vp_env_init(void)
     parsec_dtd_tile_mempool = &TILE_MP;
     for(int i = 0; i < NF; i++) FL[i].flow_index = i;
     for(int k = 0; k < NTASK; k++) {
-        TC[k].super.task_class_id = 1;           /* anything but PARSEC_DTD_FLUSH_TC_ID */
-        TC[k].super.nb_flows = 0;
-        for(int i = 0; i < NF; i++) { TC[k].super.in[i] = &FL[i]; TC[k].super.out[i] = &FL[i]; }
-        TC[k].super.release_deps = parsec_dtd_release_deps;
-        TC[k].super.iterate_successors = parsec_dtd_iterate_successors;
-        TC[k].super.prepare_input = data_lookup_of_dtd_task;
-        TC[k].super.prepare_output = output_data_of_dtd_task;
-        TC[k].super.complete_execution = complete_hook_of_dtd;
-        TC[k].super.release_task = parsec_release_dtd_task_to_mempool;
+        TC(k).super.task_class_id = 1;           /* anything but PARSEC_DTD_FLUSH_TC_ID */
+        TC(k).super.nb_flows = 0;
+        for(int i = 0; i < NF; i++) { TC(k).super.in[i] = &FL[i]; TC(k).super.out[i] = &FL[i]; }
+        TC(k).super.release_deps = parsec_dtd_release_deps;
+        TC(k).super.iterate_successors = parsec_dtd_iterate_successors;
+        TC(k).super.prepare_input = data_lookup_of_dtd_task;
+        TC(k).super.prepare_output = output_data_of_dtd_task;
+        TC(k).super.complete_execution = complete_hook_of_dtd;
+        TC(k).super.release_task = parsec_release_dtd_task_to_mempool;
         /* layout, as parsec_dtd_task_class_construct_mempools computes it for nb_nodes = 1 */
-        TC[k].rank_info_words = 1;
-        TC[k].rank_sent_to_storage_offset = offsetof(vtask_t, sent);
-        TC[k].local_task_mempool.thread_mempools = TMP; TC[k].local_task_mempool.nb_thread_mempools = 1;
+        TC(k).rank_info_words = 1;
+        TC(k).rank_sent_to_storage_offset = offsetof(vtask_t, sent);
+        TC(k).local_task_mempool.thread_mempools = TMP; TC(k).local_task_mempool.nb_thread_mempools = 1;
     }
     /* tiles as parsec_dtd_tile_of() creates them for a locally owned datum */
     for(int i = 0; i < NTILE; i++) {
-        CP[i].super.super.obj_reference_count = 1; CP[i].readers = 0; CP[i].device_private = &VAL[i]; CP[i].original = NULL;
-        TL[i].super.super.obj_reference_count = 1;
-        TL[i].dc = &DC; TL[i].arena_index = -1; TL[i].key = 10 + i; TL[i].rank = 0; TL[i].flushed = NOT_FLUSHED;
-        TL[i].data_copy = &CP[i];
-        SET_LAST_ACCESSOR((&TL[i]));
+        CP(i).super.super.obj_reference_count = 1; CP(i).readers = 0; CP(i).device_private = &VAL[i]; CP(i).original = NULL;
+        TL(i).super.super.obj_reference_count = 1;
+        TL(i).dc = &DC; TL(i).arena_index = -1; TL(i).key = 10 + i; TL(i).rank = 0; TL(i).flushed = NOT_FLUSHED;
+        TL(i).data_copy = &CP(i);
+        SET_LAST_ACCESSOR((&TL(i)));
     }
 }
 
 /* make task class k the data-flush class (one INOUT flow, id 0), as parsec_dtd_taskpool_new registers it */
 static void vp_make_flush_class(int k)
 {
-    TC[k].super.task_class_id = PARSEC_DTD_FLUSH_TC_ID; TC[k].super.nb_flows = 1;
-    TCARR[PARSEC_DTD_FLUSH_TC_ID] = &TC[k].super;
+    TC(k).super.task_class_id = PARSEC_DTD_FLUSH_TC_ID; TC(k).super.nb_flows = 1;
+    TCARR[PARSEC_DTD_FLUSH_TC_ID] = &TC(k).super;
 }
 
 /* create task object k with nfl flows (tile index or -1 = NULL tile, op type) and insert it with the real code */
@@ -241,8 +251,8 @@ static parsec_dtd_task_t *vp_create(int k, int nfl, const int *tile, const int *
 {
     int wfc = 1, fi = 0;
     vp_slot = k;
-    TC[k].super.nb_flows = nfl;
-    parsec_dtd_task_t *t = parsec_dtd_create_and_initialize_task(&TP, &TC[k].super, 0);
+    TC(k).super.nb_flows = nfl;
+    parsec_dtd_task_t *t = parsec_dtd_create_and_initialize_task(&TP, &TC(k).super, 0);
     t->super.priority = 0; t->super.chore_mask = 1;
     for(int i = 0; i < NF; i++) if(i < nfl) {
         if(tile[i] >= 0 && !(op[i] & PARSEC_DONT_TRACK) && vp_is_write(op[i])) wfc++;
@@ -250,7 +260,7 @@ static parsec_dtd_task_t *vp_create(int k, int nfl, const int *tile, const int *
     (void)parsec_atomic_fetch_add_int32(&t->super.super.super.obj_reference_count, wfc);
     for(int i = 0; i < NF; i++) if(i < nfl) {
         parsec_dtd_tile_t *tl = NULL;
-        for(int j = 0; j < NTILE; j++) if(tile[i] == j) tl = &TL[j];
+        for(int j = 0; j < NTILE; j++) if(tile[i] == j) tl = &TL(j);
         parsec_dtd_set_params_of_task(t, tl, op[i], &fi, NULL, NULL, PASSED_BY_REF);
     }
     return t;
@@ -269,13 +279,13 @@ static parsec_dtd_task_t *vp_insert1(int k, int tile, int op)
 
 /* the steps of __parsec_task_progress for a ready task (prepare_input, [hook], prepare_output,
  * complete_execution, release_task), the hook being the caller's business */
-static int vp_prepare(int k) { return data_lookup_of_dtd_task(&ES, &VT[k].t.super); }
+static int vp_prepare(int k) { return data_lookup_of_dtd_task(&ES, &VT(k).t.super); }
 static void vp_complete(int k)
 {
-    parsec_task_t *task = &VT[k].t.super;
+    parsec_task_t *task = &VT(k).t.super;
     task->task_class->prepare_output(&ES, task);
     task->task_class->complete_execution(&ES, task);
     (void)task->task_class->release_task(&ES, task);
 }
-static int vp_refs(int k) { return VT[k].t.super.super.super.obj_reference_count; }
+static int vp_refs(int k) { return VT(k).t.super.super.super.obj_reference_count; }
 #endif
